@@ -133,7 +133,7 @@ fn returns_inside(p: &Program, kind: &str) -> bool {
 /// deviations of the other families reach (a call stack or frame table that is capped, trimmed or
 /// mixed up only shows beyond some size).
 fn scale(w: &mut Worker) {
-    let sizes: Vec<u64> = crate::util::with_thresholds(w.tier.pick(vec![10, 70, 300], vec![10, 70, 300, 1000, 3000]), w.tier.pick(1024, 16384));
+    let sizes: Vec<u64> = crate::util::with_thresholds(w.tier.pick(vec![10, 70, 300, 3000, 6000], vec![10, 70, 300, 1000, 3000, 6000, 24000]), w.tier.pick(1024, 16384));
     for &d in &sizes {
         // plain recursion: the result comes back through d returns
         let text = format!(
@@ -528,6 +528,52 @@ pub fn worker(w: &mut Worker) {
         }
     }
 
+    // family 5: a function with a block of its own (a while, a for/in, an if with an else) called first at
+    // the top level and then from inside branches of the caller's blocks - a taken branch that has elseif /
+    // else lines behind it, one level and two levels deep, a loop body: the caller's blocks go on as
+    // written after each call, wherever the function ran before
+    {
+        let fbodies: Vec<Vec<Stmt>> = vec![
+            vec![Stmt::While { cond: Cond { site: 1, form: 2 }, body: vec![Stmt::Emit(1)] }, Stmt::Return(Some("w".into()))],
+            vec![Stmt::For { site: 2, body: vec![Stmt::Emit(2)] }],
+            vec![Stmt::If { conds: vec![Cond { site: 3, form: 2 }], bodies: vec![vec![Stmt::Emit(3)]], else_body: Some(vec![Stmt::Emit(4)]) }, Stmt::Return(None)],
+            vec![Stmt::While { cond: Cond { site: 4, form: 2 }, body: vec![Stmt::If { conds: vec![Cond { site: 5, form: 2 }], bodies: vec![vec![Stmt::Emit(5)]], else_body: None }] }],
+        ];
+        let c = |form: CallForm, id: u32| call(form, 0, id);
+        let mains: Vec<Vec<Stmt>> = vec![
+            vec![
+                c(CallForm::Stmt, 200),
+                Stmt::If { conds: vec![Cond { site: 20, form: 2 }, Cond { site: 21, form: 2 }], bodies: vec![vec![Stmt::Emit(100), c(CallForm::Stmt, 201), Stmt::Emit(101)], vec![Stmt::Emit(102)]], else_body: Some(vec![Stmt::Emit(103)]) },
+                Stmt::Emit(104),
+            ],
+            vec![
+                c(CallForm::Assign, 200),
+                Stmt::If {
+                    conds: vec![Cond { site: 20, form: 2 }],
+                    bodies: vec![vec![Stmt::If { conds: vec![Cond { site: 21, form: 2 }, Cond { site: 22, form: 2 }], bodies: vec![vec![c(CallForm::Assign, 201)], vec![Stmt::Emit(105)]], else_body: Some(vec![Stmt::Emit(106)]) }]],
+                    else_body: Some(vec![Stmt::Emit(107)]),
+                },
+                Stmt::Emit(108),
+            ],
+            vec![
+                Stmt::If { conds: vec![Cond { site: 20, form: 2 }], bodies: vec![vec![c(CallForm::Stmt, 200)]], else_body: Some(vec![Stmt::Emit(109)]) },
+                c(CallForm::Cond, 201),
+                Stmt::While { cond: Cond { site: 23, form: 2 }, body: vec![Stmt::If { conds: vec![Cond { site: 24, form: 2 }], bodies: vec![vec![c(CallForm::Stmt, 202)]], else_body: Some(vec![Stmt::Emit(110)]) }, Stmt::Emit(111)] },
+                Stmt::Emit(112),
+            ],
+        ];
+        for (fi, fbody) in fbodies.iter().enumerate() {
+            for scoped in [false, true] {
+                for (mi, main) in mains.iter().enumerate() {
+                    let mut m = vec![Stmt::Set("g".into(), "G".into()), Stmt::Set("x".into(), "X0".into())];
+                    m.extend(main.iter().cloned());
+                    let prog = Program { funcs: vec![Func { scoped, body: fbody.clone() }], main: m };
+                    run_prog(w, &rig, &prog, (fi + mi) % 4, tier.pick(4, 5), tier.pick(16, 20), hash64(&("depths", fi, scoped, mi)));
+                }
+            }
+        }
+    }
+
     // family 2: two functions, f1 calls f0 (nested), f0 may call itself guarded by an answer (recursion)
     let inner_bodies: Vec<Vec<Stmt>> = {
         let mut v = vec![];
@@ -604,6 +650,12 @@ pub fn worker(w: &mut Worker) {
             Stmt::For { site: 7, body: vec![Stmt::Call { func: 0, out: Some("y".into()), args: vec!["n4".into()], position: 0, id: 313 }, Stmt::Emit(23)] },
             Stmt::Return(Some("o2".into())),
         ],
+        // the call is the last thing the outer function does: it ends without a value all the same
+        vec![Stmt::Emit(24), Stmt::Call { func: 0, out: None, args: vec!["n5".into()], position: 0, id: 314 }],
+        vec![
+            Stmt::Emit(25),
+            Stmt::If { conds: vec![Cond { site: 11, form: 2 }], bodies: vec![vec![Stmt::Call { func: 0, out: None, args: vec!["n6".into()], position: 0, id: 315 }]], else_body: None },
+        ],
     ];
     for (ii, inner) in inner_bodies.iter().enumerate() {
         for (oi, outer) in outer_bodies.iter().enumerate() {
@@ -655,7 +707,7 @@ pub fn crash_sig(_case: &Value, kind: &str) -> String {
     kind.to_string()
 }
 
-pub const RULE: &str = "family 1: one function (plain and <scope>) whose body is every block forest with 0..B blocks (if/elseif/else, while, for-in) with nothing, `return r1` or a bare `return` planted at every position of the body (depth-first, inside every nesting), with and without a trailing `return r9`; main sets a global and a pre-existing output variable and calls the function in every sequence of 1..2 call forms and selected triples from {statement, `x = f p`, `x = f \"q r\" s`, condition position `if f p`}. family 2: two functions where the outer one calls the inner one (as assignment, statement, in condition position, from a for body) and the inner one returns from inside for / while-in-if or calls itself guarded by an answer (also from inside a for body), all scoped/plain combinations. family 3: 'find first' functions (a loop that returns from a later iteration) called two or three times in every form, explored with 4-5 deviations. Every answer sequence (truth values, array lengths) with bounded deviations; each execution compared with the tree-walking interpreter with call semantics (arguments as global variables 1..n, scoped save/restore, value-less end leaves the output variable undefined). Function-body emits show ${1} and a global ${g} so argument binding and scope isolation are observable. The two corners the property leaves open are masked. family 4: a <scope> function whose locals are named like the caller's output variable, global and a fresh name, ending by reaching its end / bare return / value (also from inside a taken branch), called in five sequences of forms from a caller that had no value in the output variable. Scale family: plain and <scope> recursion of depth 10/70/300 (thorough: 1000, 3000), a function called from a loop 10..300 times, a function that returns from inside its own for/in loop called 2x10..300 times, a scoped function called from a plain one called from a loop; results and the variables that must stay undefined are compared with values computed in Rust Recursion through blocks: a function calling itself from the then / else / elseif / second elseif branch, an if without else, a nested if, a while body, an if inside a for body - no return inside the branch, the body goes on behind the block - depth 0..4 (thorough 9), plain (shared trace) and scoped (trace in the returned values) Errors inside functions: 4 failing commands x plain / scoped x call as statement / for its value / if / elseif / not, inside a for body of two items: the body goes on, the value comes back, a scoped function gives the caller's variables back, the loop completes. Recursion in loops: a scoped function calling itself in both passes of a while / for-in / while inside for-in (value = the bracketed call tree, depth 0..3, thorough 6), and calling itself in condition position (if / not / elseif) from inside its own for-in loop, the inner invocation returning from inside its loop. Error inside a called function: the same with the error one call further down (the called function calls another one for its value). All fixed-case families run at the threshold sizes and as pinned cases";
+pub const RULE: &str = "family 1: one function (plain and <scope>) whose body is every block forest with 0..B blocks (if/elseif/else, while, for-in) with nothing, `return r1` or a bare `return` planted at every position of the body (depth-first, inside every nesting), with and without a trailing `return r9`; main sets a global and a pre-existing output variable and calls the function in every sequence of 1..2 call forms and selected triples from {statement, `x = f p`, `x = f \"q r\" s`, condition position `if f p`}. family 2: two functions where the outer one calls the inner one (as assignment, statement, in condition position, from a for body) and the inner one returns from inside for / while-in-if or calls itself guarded by an answer (also from inside a for body), all scoped/plain combinations. family 3: 'find first' functions (a loop that returns from a later iteration) called two or three times in every form, explored with 4-5 deviations. Every answer sequence (truth values, array lengths) with bounded deviations; each execution compared with the tree-walking interpreter with call semantics (arguments as global variables 1..n, scoped save/restore, value-less end leaves the output variable undefined). Function-body emits show ${1} and a global ${g} so argument binding and scope isolation are observable. The two corners the property leaves open are masked. family 4: a <scope> function whose locals are named like the caller's output variable, global and a fresh name, ending by reaching its end / bare return / value (also from inside a taken branch), called in five sequences of forms from a caller that had no value in the output variable. Scale family: plain and <scope> recursion of depth 10/70/300 (thorough: 1000, 3000), a function called from a loop 10..300 times, a function that returns from inside its own for/in loop called 2x10..300 times, a scoped function called from a plain one called from a loop; results and the variables that must stay undefined are compared with values computed in Rust Recursion through blocks: a function calling itself from the then / else / elseif / second elseif branch, an if without else, a nested if, a while body, an if inside a for body - no return inside the branch, the body goes on behind the block - depth 0..4 (thorough 9), plain (shared trace) and scoped (trace in the returned values) Errors inside functions: 4 failing commands x plain / scoped x call as statement / for its value / if / elseif / not, inside a for body of two items: the body goes on, the value comes back, a scoped function gives the caller's variables back, the loop completes. Recursion in loops: a scoped function calling itself in both passes of a while / for-in / while inside for-in (value = the bracketed call tree, depth 0..3, thorough 6), and calling itself in condition position (if / not / elseif) from inside its own for-in loop, the inner invocation returning from inside its loop. Error inside a called function: the same with the error one call further down (the called function calls another one for its value). All fixed-case families run at the threshold sizes and as pinned cases Family 5: a function with a block of its own (while, for/in, if/else, an if inside a while) called first at the top level and then from taken branches of the caller's blocks that have elseif / else lines behind them (one and two levels deep) and from a loop body, 4 (thorough 5) deviations; two outer bodies end with a call as their last statement (at body level, and as the last statement of a block that ends the body).";
 pub const ASSUMPTIONS: &[&str] = &["spelling of fn/return keywords rotates over their aliases and full names", "loop variables after their loop and handle names are masked in the final variables"];
 pub const EXHAUSTIVE: bool = true;
 pub const WALL_CAP_S: (u64, u64) = (55, 2700);
